@@ -1921,10 +1921,17 @@ class _BulkORMUpdate(_BulkUDCompileState, UpdateDMLState):
 
             to_evaluate = state.unmodified.intersection(evaluated_keys)
 
-            for key in to_evaluate:
+            for key in list(to_evaluate):
                 if key in dict_:
                     # only run eval for attributes that are present.
-                    dict_[key] = value_evaluators[key](obj)
+                    new_value = value_evaluators[key](obj)
+                    if new_value is evaluator._EXPIRED_OBJECT:
+                        # the expression reads an expired attribute;
+                        # the new value is not known without a load
+                        to_evaluate = to_evaluate.difference([key])
+                        state._expire_attributes(dict_, [key])
+                    else:
+                        dict_[key] = new_value
 
             state.manager.dispatch.refresh(state, None, to_evaluate)
 
